@@ -37,6 +37,8 @@ func runC12(c *Ctx, r *Report) {
 	c12Offsets(c, r)
 	c02IntPool(c, r, "C12-d")
 	c05FreshInstance(c, r, "C12-d/fresh-instance")
+	c02ResultNotRecycled(c, r, "C12-d/result-not-recycled")
+	c02NamesVerbatim(c, r, "C12-e/names-verbatim")
 }
 
 // byteFoldFuncs: functions of the package with signature func(byte) byte.
